@@ -134,6 +134,8 @@ func (sf *storeFlusher) Commit() (err error) {
 			if err != nil {
 				return fmt.Errorf("abandon table builder error when flush commit, error:%s", err)
 			}
+			// no table file is created, so there is no output which needs rollup
+			sf.outputs = nil
 		}
 	}
 	for leader, seq := range sf.sequences {
